@@ -12,6 +12,8 @@ open NumbatModel.Gen
 
 theorem unitRows_names : unitNames.length = unitRows.length := by decide +kernel
 
+theorem unitNames_nodup : unitNames.Nodup := by decide +kernel
+
 theorem unitRows_wf : wfCheck unitRows = true := by decide +kernel
 
 theorem unitRows_pos : posCheck unitRows = true := by decide +kernel
@@ -51,5 +53,11 @@ theorem preludeTable_wf : WF preludeTable := wf_of_check decodeReal unitNames un
 
 theorem preludeTable_pos : PosTbl preludeTable :=
   pos_of_check decodeReal decodeReal_pos unitNames unitRows unitRows_pos
+
+theorem preludeTable_names : NamesDistinct preludeTable :=
+  names_distinct_of_nodup decodeReal unitNames unitRows unitNames_nodup
+
+/-- same-dimension conversions succeed in the prelude (hypothesis `ConvComplete` of C01's `soundness_partial`) -/
+theorem preludeTable_convComplete : ConvComplete preludeTable := convComplete preludeTable preludeTable_names
 
 end NumbatModel.Qty
